@@ -148,7 +148,7 @@ func Freeze(x any) {}
 
 // FreezeExcept is Freeze that does not descend into the objects listed in except.
 func FreezeExcept(x any, except ...any) {}
-func Thaw()        {}
+func Thaw()                             {}
 
 // EagerIterator is the engine's model of go-intervals' mapperToIterator (a
 // generator goroutine feeding a channel): the enumeration is run to completion
